@@ -413,9 +413,11 @@ func (k *Kernel) handle(r *NLReq) {
 	r.N = k.nReq
 	r.Step = s.stepNo
 	r.At = s.since()
-	if err := k.decode(r); err != nil {
-		s.harnessFail("simkernel cannot decode a request from go-upf: %v (% x)", err, r.Raw)
-		return
+	if r.Op == "" {
+		if err := k.decode(r); err != nil {
+			s.harnessFail("simkernel cannot decode a request from go-upf: %v (% x)", err, r.Raw)
+			return
+		}
 	}
 	k.reqLog = append(k.reqLog, r)
 	pid := k.pidOf(r.c)
